@@ -28,7 +28,8 @@ type Gen struct {
 	ufOrder  []string
 	WS       map[*ssa.Function]*WriteSet
 	fnByKey  map[string]*ssa.Function
-	pureDefs []string // define-fun(-rec) text of spec functions, in dependency order
+	pureDefs []pureDef // definitions of spec functions, in dependency order
+	pureDecls []pureDef // forward declarations of the recursive ones
 	pureDone map[string]bool
 	axioms   []string
 	Verbose  bool
@@ -38,6 +39,8 @@ type Gen struct {
 	heapRefs map[string]bool // name@epoch consts referenced
 	heapRefOrder []string
 }
+
+type pureDef struct{ Name, Text string }
 
 // Load loads the repository packages and contracts.
 func Load(repo string) (*Gen, error) {
@@ -73,9 +76,11 @@ func Load(repo string) (*Gen, error) {
 	if err := g.expandTemplates(); err != nil {
 		return nil, err
 	}
+	g.genDeepcopySpecs()
 	g.indexFunctions()
 	g.StrLit("")
 	g.TE.heapSort["$next"] = SInt
+	g.TE.heapSort["$next0"] = SInt
 	return g, nil
 }
 
@@ -418,6 +423,7 @@ func (g *Gen) PreparePures() (err error) {
 	}
 	// emit in dependency order
 	g.pureDefs = nil
+	g.pureDecls = nil
 	g.pureDone = map[string]bool{}
 	var emit func(k string, stack map[string]bool)
 	emit = func(k string, stack map[string]bool) {
@@ -461,12 +467,13 @@ func (g *Gen) PreparePures() (err error) {
 				return fmt.Sprintf("(%s %s)", sym, strings.Join(append([]string{fuel}, vars...), " "))
 			}
 			binders := "(fuelv Fuel) " + strings.Join(ps, " ")
-			txt := fmt.Sprintf("(declare-fun %s (Fuel %s) %s)\n", sym, strings.Join(sorts, " "), rs)
+			g.pureDecls = append(g.pureDecls, pureDef{sym, fmt.Sprintf("(declare-fun %s (Fuel %s) %s)", sym, strings.Join(sorts, " "), rs)})
+			txt := ""
 			txt += fmt.Sprintf("(assert (forall (%s) (! (= %s %s) :pattern (%s))))\n", binders, app("(FS fuelv)"), body, app("(FS fuelv)"))
 			txt += fmt.Sprintf("(assert (forall (%s) (! (= %s %s) :pattern (%s))))", binders, app("(FS fuelv)"), app("fuelv"), app("(FS fuelv)"))
-			g.pureDefs = append(g.pureDefs, txt)
+			g.pureDefs = append(g.pureDefs, pureDef{sym, txt})
 		} else {
-			g.pureDefs = append(g.pureDefs, fmt.Sprintf("(define-fun %s (%s) %s %s)", pureSym(pf), strings.Join(ps, " "), rs, body))
+			g.pureDefs = append(g.pureDefs, pureDef{pureSym(pf), fmt.Sprintf("(define-fun %s (%s) %s %s)", pureSym(pf), strings.Join(ps, " "), rs, body)})
 		}
 	}
 	for _, k := range names {
@@ -490,6 +497,9 @@ func (g *Gen) evalPureBody(pf *PureFn, view HeapView) string {
 	env := &SpecEnv{G: g, Pkg: pkg, Vars: map[string]SV{}, Cur: view, Next0: "0"}
 	if pf.Recursive {
 		env.Fuel = "fuelv"
+	}
+	if pf.DcsType != nil {
+		env.DcsOf = pf.DcsType
 	}
 	for _, p := range pf.Params {
 		env.Vars[p.Name] = SV{Term: "p_" + p.Name, Typ: resolveTypeText(pkg, p.T.Text)}
@@ -541,6 +551,32 @@ func (g *Gen) pureCalls(pf *PureFn) []string {
 		}
 	}
 	walk(pf.Body)
+	if pf.DcsType != nil {
+		// callees of a generated deep-copy function: the dcs functions of the struct types its fields mention
+		var visit func(t types.Type, depth int)
+		visit = func(t types.Type, depth int) {
+			switch u := t.Underlying().(type) {
+			case *types.Pointer:
+				visit(u.Elem(), depth)
+			case *types.Slice:
+				visit(u.Elem(), depth)
+			case *types.Struct:
+				if nt, ok := t.(*types.Named); ok && depth > 0 {
+					k := nt.Obj().Pkg().Name() + "." + dcsName(nt)
+					if _, ok := g.Pures[k]; ok {
+						seen[k] = true
+						return
+					}
+				}
+				for i := 0; i < u.NumFields(); i++ {
+					if u.Field(i).Name() != "XMLName" {
+						visit(u.Field(i).Type(), depth+1)
+					}
+				}
+			}
+		}
+		visit(pf.DcsType, 0)
+	}
 	var out []string
 	for k := range seen {
 		out = append(out, k)
@@ -553,6 +589,15 @@ func (e *SpecEnv) callPure(pf *PureFn, x SCall) SV {
 	if len(x.Args) != len(pf.Params) {
 		e.fail("%s: want %d args", pf.Name, len(pf.Params))
 	}
+	var vals []SV
+	for _, a := range x.Args {
+		vals = append(vals, e.Eval(a))
+	}
+	return e.callPureVals(pf, vals)
+}
+
+// callPureVals applies a spec function to already evaluated arguments.
+func (e *SpecEnv) callPureVals(pf *PureFn, vals []SV) SV {
 	var args []string
 	if pf.Recursive {
 		if e.Fuel != "" {
@@ -566,11 +611,14 @@ func (e *SpecEnv) callPure(pf *PureFn, x SCall) SV {
 			args = append(args, e.Cur.Next())
 			continue
 		}
+		if h == "$next0" {
+			args = append(args, e.entryBound())
+			continue
+		}
 		args = append(args, e.Cur.Heap(h))
 	}
 	pkg := e.G.pkgTypes(pf.Pkg)
-	for i, a := range x.Args {
-		v := e.Eval(a)
+	for i, v := range vals {
 		pt := resolveTypeText(pkg, pf.Params[i].T.Text)
 		t := v.Term
 		if v.Loc != nil {
@@ -616,8 +664,16 @@ func (g *Gen) expandTemplates() (err error) {
 			return fmt.Errorf("%s:%d: forall-fields: want 'F of Type [ptr|all|scalar]'", t.File, t.Line)
 		}
 		kind := "all"
-		if len(hd) >= 4 {
+		except := map[string]bool{}
+		if len(hd) >= 4 && hd[3] != "except" {
 			kind = hd[3]
+		}
+		for k, w := range hd {
+			if w == "except" {
+				for _, x := range strings.Split(strings.Join(hd[k+1:], ""), ",") {
+					except[strings.TrimSpace(x)] = true
+				}
+			}
 		}
 		pkg := g.pkgTypes(t.Pkg)
 		typ := resolveTypeText(pkg, hd[2])
@@ -628,7 +684,7 @@ func (g *Gen) expandTemplates() (err error) {
 		n := 0
 		for k := 0; k < st.NumFields(); k++ {
 			f := st.Field(k)
-			if f.Name() == "XMLName" {
+			if f.Name() == "XMLName" || except[f.Name()] {
 				continue
 			}
 			_, isPtr := f.Type().Underlying().(*types.Pointer)
@@ -680,4 +736,72 @@ func (g *Gen) expandTemplates() (err error) {
 		}
 	}
 	return nil
+}
+
+
+// genDeepcopySpecs registers, for every named struct type of the repository packages, the spec function
+// dcs_T(a *T, b *T): "the struct a points to is a deep copy of the struct b points to" (field-wise,
+// XMLName excluded). Its body is the deepcopy expansion of one level; nested struct types call their own
+// dcs function, so recursive types (Table -> TableRow -> TableCell -> Table) become recursive spec functions.
+func (g *Gen) genDeepcopySpecs() {
+	for _, sp := range g.SSAPkgs {
+		if !strings.HasPrefix(sp.Pkg.Path(), RepoModule) {
+			continue
+		}
+		for _, m := range sp.Members {
+			tm, ok := m.(*ssa.Type)
+			if !ok || !isStruct(tm.Type()) {
+				continue
+			}
+			nt, ok := tm.Type().(*types.Named)
+			if !ok || nt.TypeParams().Len() > 0 {
+				continue
+			}
+			if !deepcopyable(nt, map[string]bool{}) {
+				continue
+			}
+			name := dcsName(nt)
+			key := sp.Pkg.Name() + "." + name
+			if _, exists := g.Pures[key]; exists {
+				continue
+			}
+			g.Pures[key] = &PureFn{Pkg: sp.Pkg.Name(), Name: name,
+				Params: []SBinder{{"a", STypeRef{"*" + nt.Obj().Name()}}, {"b", STypeRef{"*" + nt.Obj().Name()}}},
+				Result: STypeRef{"bool"}, Body: SCall{"$dcsbody", []SExpr{SIdent{"a"}, SIdent{"b"}}},
+				Text: "generated: deep copy of struct " + nt.Obj().Name(), DcsType: nt, File: "(generated)"}
+		}
+	}
+}
+
+// deepcopyable: every field (transitively, within the package) is a basic value, a pointer to such a
+// struct, a slice of such values, or an inline struct.
+func deepcopyable(t types.Type, seen map[string]bool) bool {
+	k := types.TypeString(t, nil)
+	if seen[k] {
+		return true
+	}
+	seen[k] = true
+	switch u := t.Underlying().(type) {
+	case *types.Basic:
+		return true
+	case *types.Pointer:
+		return isStruct(u.Elem()) && deepcopyable(u.Elem(), seen)
+	case *types.Slice:
+		return deepcopyable(u.Elem(), seen)
+	case *types.Struct:
+		for i := 0; i < u.NumFields(); i++ {
+			f := u.Field(i)
+			if f.Name() == "XMLName" {
+				continue
+			}
+			if _, isA := f.Type().Underlying().(*types.Array); isA {
+				continue
+			}
+			if !deepcopyable(f.Type(), seen) {
+				return false
+			}
+		}
+		return true
+	}
+	return false
 }
